@@ -43,7 +43,8 @@ Proof.
     + unfold dapply; cbn [d_main]. now rewrite Hl, Hm.
     + rewrite !lookup_dapply, Hp, Hm, (terms_same v v' o o' _ Hd He).
       unfold derive0. now rewrite Hl.
-  - simpl in Hs. subst o'. cbn [d_main d_p1]. now rewrite Hm.
+  - simpl in Hs. subst o'. cbn [d_main d_p1]. split; [now rewrite Hm|].
+    unfold map_partials. now rewrite !alookup_map_values, Hp.
 Qed.
 
 Theorem partial_independent v v' prog prog' ds ds' :
@@ -69,11 +70,14 @@ Qed.
 
 End DiffIndep.
 
-(* known finding (DESIGN section 9 item 10): non-differentiable operators do not touch the partials *)
-Lemma spoiler_keeps_partials :
+(* regression witness of the former finding (fixed by /repo 8521bf9): operators without differentiable parameter
+   act on the partials too -- after a spoiler the signal is 0 and so is the carried Jacobian entry, which was
+   non-zero just before it *)
+Lemma spoiler_acts_on_partials :
   exists (prog : list (dinstr QIops)) (v : var),
-    f0 QIops (d_main (drun prog (dinit (@init QIops (qr 1 1))))) = qi0 /\
-    jacobian (drun prog (dinit (@init QIops (qr 1 1)))) [v] <> [qi0].
+    jacobian (drun prog (dinit (@init QIops (qr 1 1)))) [v] <> [qi0] /\
+    f0 QIops (d_main (drun (prog ++ [DPlain (@OSpoil QIops)]) (dinit (@init QIops (qr 1 1))))) = qi0 /\
+    jacobian (drun (prog ++ [DPlain (@OSpoil QIops)]) (dinit (@init QIops (qr 1 1)))) [v] = [qi0].
 Proof.
   exists [DOp (mkDop (LMatrix (@mkM QIops (@mk3 QIops (qr 1 2) (qr 1 2) (qi 0 1 (-1) 1))
                                           (@mk3 QIops (qr 1 2) (qr 1 2) (qi 0 1 1 1))
@@ -81,8 +85,6 @@ Proof.
                      [(0%nat, LMatrix (@mkM QIops (@mk3 QIops (qr 0 1) (qr 0 1) (qr 1 1))
                                                   (@mk3 QIops (qr 0 1) (qr 0 1) (qr 1 1))
                                                   (@mk3 QIops (qr 0 1) (qr 0 1) (qr 0 1))) None)]
-                     [] [(0%nat, [(0%nat, qr 1 1)])] [] true []);
-          DPlain (@OSpoil QIops)], 0%nat.
-  split; [vm_compute; reflexivity|].
-  vm_compute. intros H. discriminate H.
+                     [] [(0%nat, [(0%nat, qr 1 1)])] [] true [])], 0%nat.
+  split; [vm_compute; intros H; discriminate H|split; vm_compute; reflexivity].
 Qed.
